@@ -185,6 +185,21 @@ func vcRunC15(t *vcTrial, acts []string, workers int, churn bool) {
 		t.Violate("C15", "census", "after every connection, listener and event loop was closed the process holds %d descriptor(s) more than before: %v", len(diff), diff)
 		return
 	}
+	// "never issues close on a descriptor number it does not own": everything that was open before
+	// the trial (standard streams, the harness's files, the long-lived pollers) is still there
+	after := vcOpenFDs()
+	var gone []string
+	for fd, l := range before {
+		if l2, ok := after[fd]; !ok {
+			gone = append(gone, fmt.Sprintf("%d (%s)", fd, l))
+		} else if l2 != l {
+			gone = append(gone, fmt.Sprintf("%d (%s, now %s)", fd, l, l2))
+		}
+	}
+	if len(gone) > 0 {
+		t.Violate("C15", "foreign_close", "descriptor(s) that were open before the trial and belong to nobody in it were closed or replaced: %v", gone)
+		return
+	}
 	t.Stat("closes_audited", closes)
 	t.Stat("lifecycles", len(acts))
 	t.Stat("numbers_churned_by_bystanders", int(atomic.LoadInt64(&churned)))
